@@ -249,3 +249,92 @@ Lemma marker_plaintext_stored_in_clear :
          (k : key) (fmt : out_fmt),
     encrypt_eyaml key enc layout k "ENC[looks encrypted]" fmt = Ok "ENC[looks encrypted]".
 Proof. reflexivity. Qed.
+
+(* ---- seen_anchors never holds a name twice -------------------------------------------- *)
+
+Lemma mem_string_false_not_in : forall a l, mem_string a l = false -> ~ In a l.
+Proof.
+  induction l as [|b r IH]; simpl; intros H; [tauto|].
+  destruct (String.eqb a b) eqn:E; [discriminate H|].
+  intros [Hb|Hr]; [subst b; rewrite String.eqb_refl in E; discriminate E | exact (IH H Hr)].
+Qed.
+
+Lemma nodup_snoc : forall (a : string) l, NoDup l -> ~ In a l -> NoDup (l ++ [a])%list.
+Proof.
+  induction l as [|b r IH]; intros Hn Hi; simpl.
+  - constructor; [tauto | constructor].
+  - inversion Hn; subst. constructor.
+    + rewrite in_app_iff; simpl; intros [H|[H|[]]]; [contradiction | subst; apply Hi; left; reflexivity].
+    + apply IH; [assumption | intro H; apply Hi; right; exact H].
+Qed.
+
+Lemma set_at_seen : forall st l v f st', set_at st l v f = Ok st' -> r_seen st' = r_seen st.
+Proof.
+  intros st l v f st' H; unfold set_at in H.
+  destruct (lookup (r_doc st) (removelast l)); [|discriminate H].
+  destruct (lookup (r_doc st) l) as [[i x| | |]|]; try discriminate H.
+  inversion H; reflexivity.
+Qed.
+
+Lemma set_value_locs_seen : forall ls st v f st', set_value_locs st ls v f = Ok st' -> r_seen st' = r_seen st.
+Proof.
+  induction ls as [|l r IH]; intros st v f st' H; simpl in H; [inversion H; reflexivity|].
+  destruct (set_at st l v f) as [s1| |] eqn:E; simpl in H; try discriminate H.
+  rewrite (IH _ _ _ _ H); eapply set_at_seen; exact E.
+Qed.
+
+Section Cipher2.
+  Variable key : Type.
+  Variable enc : key -> string -> option string.
+  Variable dec : key -> string -> option string.
+  Variable layout : out_fmt -> string -> string.
+  Variables oldk newk : key.
+
+  Lemma rotate_at_nodup : forall st p l st',
+    NoDup (r_seen st) -> rotate_at key enc dec layout oldk newk st p l = Ok st' -> NoDup (r_seen st').
+  Proof.
+    intros st p l st' Hn H; unfold rotate_at in H.
+    destruct (lookup (r_doc st) l) as [[i v| | |]|]; try discriminate H.
+    set (seen' := match anchor_name (NLeaf i v) with Some a => (r_seen st ++ [a])%list | None => r_seen st end) in *.
+    assert (Hs : (match anchor_name (NLeaf i v) with Some a => mem_string a (r_seen st) | None => false end) = false
+                 -> NoDup seen').
+    { unfold seen'; destruct (anchor_name (NLeaf i v)) as [a|]; intro M; [|exact Hn].
+      apply nodup_snoc; [exact Hn | apply mem_string_false_not_in; exact M]. }
+    destruct (match anchor_name (NLeaf i v) with Some a => mem_string a (r_seen st) | None => false end) eqn:M.
+    - inversion H; subst; exact Hn.
+    - specialize (Hs eq_refl).
+      destruct (decrypt_eyaml key dec oldk v) as [pv|e|]; try discriminate H.
+      + destruct pv; try discriminate H.
+        destruct (encrypt_eyaml key enc layout newk s _) as [ev|e|]; try discriminate H.
+        * simpl in H.
+          match type of H with (do st2 <- ?X; _) = _ => destruct X as [st2| |] eqn:E end; simpl in H; try discriminate H.
+          inversion H; subst; simpl. rewrite (set_value_locs_seen _ _ _ _ _ E); exact Hs.
+        * destruct e; try discriminate H. inversion H; subst; exact Hs.
+      + destruct e; try discriminate H. inversion H; subst; exact Hs.
+  Qed.
+
+  Lemma rotate_locs_nodup : forall ls st p st',
+    NoDup (r_seen st) -> rotate_locs key enc dec layout oldk newk st p ls = Ok st' -> NoDup (r_seen st').
+  Proof.
+    induction ls as [|l r IH]; intros st p st' Hn H; simpl in H; [inversion H; subst; exact Hn|].
+    destruct (rotate_at key enc dec layout oldk newk st p l) as [s1| |] eqn:E; simpl in H; try discriminate H.
+    eapply IH; [eapply rotate_at_nodup; eassumption | exact H].
+  Qed.
+
+  Lemma rotate_paths_nodup : forall ps st st',
+    NoDup (r_seen st) -> rotate_paths key enc dec layout oldk newk st ps = Ok st' -> NoDup (r_seen st').
+  Proof.
+    induction ps as [|p r IH]; intros st st' Hn H; simpl in H; [inversion H; subst; exact Hn|].
+    destruct (rotate_path key enc dec layout oldk newk st p) as [s1| |] eqn:E; simpl in H; try discriminate H.
+    eapply IH; [|exact H].
+    unfold rotate_path in E; destruct (resolve (r_doc st) p) as [|l0 ls]; [discriminate E|].
+    eapply rotate_locs_nodup; eassumption.
+  Qed.
+
+  Lemma seen_anchors_nodup : forall d next folded st,
+    rotate_file key enc dec layout oldk newk d next folded = Ok st -> NoDup (r_seen st).
+  Proof.
+    intros d next folded st H; unfold rotate_file in H.
+    eapply rotate_paths_nodup; [|exact H]. constructor.
+  Qed.
+End Cipher2.
